@@ -59,7 +59,12 @@ impl Rx {
     { unimplemented!() }
 }
 /// `attaches` (ghost): how many attach frames this endpoint has queued
-pub struct EndS { pub link: LinkS, pub sent: Ghost<Seq<(bool, Option<AmqpError>)>>, pub has_handle: Ghost<bool>, pub failures: Ghost<nat>, pub incoming: Rx, pub attaches: Ghost<nat> }
+/// Arc<OnceLock<SessionStopReason>>: what the session published when it stopped (None: still running, or nothing recorded)
+pub struct StopCell { pub v: Option<SessionStopReason> }
+impl StopCell {
+    pub fn get(&self) -> (r: Option<&SessionStopReason>) ensures (match (r, self.v) { (Some(a), Some(b)) => *a == b, (None, None) => true, _ => false }) { match &self.v { Some(x) => Some(x), None => None } }
+}
+pub struct EndS { pub link: LinkS, pub sent: Ghost<Seq<(bool, Option<AmqpError>)>>, pub has_handle: Ghost<bool>, pub failures: Ghost<nat>, pub incoming: Rx, pub attaches: Ghost<nat>, pub stop: StopCell }
 
 pub open spec fn send_legal(st: LinkState, closed: bool) -> bool {
     match (st, closed) {
@@ -71,13 +76,14 @@ pub open spec fn send_legal(st: LinkState, closed: bool) -> bool {
 }
 impl EndS {
     pub fn link(&self) -> (r: &LinkS) ensures *r == self.link { &self.link }
+    pub fn session_stop_reason(&self) -> (r: &StopCell) ensures *r == self.stop { &self.stop }
     #[verifier::external_body]
     pub fn link_mut(&mut self) -> (r: &mut LinkS)
         ensures *r == old(self).link, final(self).link == *final(r), final(self).sent == old(self).sent, final(self).failures == old(self).failures, final(self).incoming == old(self).incoming, final(self).has_handle == old(self).has_handle,
     { unimplemented!() }
     #[verifier::external_body]
     pub fn reader_mut(&mut self) -> (r: &mut Rx)
-        ensures *r == old(self).incoming, final(self).incoming == *final(r), final(self).sent == old(self).sent, final(self).failures == old(self).failures, final(self).link == old(self).link, final(self).has_handle == old(self).has_handle,
+        ensures *r == old(self).incoming, final(self).incoming == *final(r), final(self).sent == old(self).sent, final(self).failures == old(self).failures, final(self).link == old(self).link, final(self).has_handle == old(self).has_handle, final(self).stop == old(self).stop,
     { unimplemented!() }
     /// LinkEndpointInner::reallocate_output_handle: a fresh relay and a fresh output handle from the session (session::allocate_link, unit SESSION); the handle is stored in the link
     #[verifier::external_body]
@@ -144,8 +150,16 @@ impl EndS {
             send_legal(old(self).link.st, closed) && old(self).has_handle@ && r is Err ==> final(self).failures@ > old(self).failures@,
     { unimplemented!() }
 }
-#[verifier::external_body]
-pub fn detach_error_from_stop_reason(e: &EndS) -> (r: DetachError) ensures r is SessionStopped || r is IllegalState { unimplemented!() }
+//@@ fn file=fe2o3-amqp/src/link/shared_inner.rs name=detach_error_from_stop_reason
+//@@ generics
+//@@ nowhere
+//@@ param inner : &EndS
+//@@ spec
+    ensures (match inner.stop.v {
+        Some(reason) => r == DetachError::SessionStopped(reason),       // [C14.link.closed-channel-reports-stop-reason] a detach / close that finds the session gone reports the reason the session published (the peer's end error, the connection's close error, an engine failure) ...
+        None => r is IllegalState,                                       // ... and a link-local error when nothing was recorded
+    }),
+//@@ end
 pub trait ErrInto<T>: Sized { spec fn conv(self) -> T; fn err_into(self) -> (r: T) ensures r == self.conv(); }
 impl ErrInto<AttachErrorS> for AttachErrorS { open spec fn conv(self) -> AttachErrorS { self } fn err_into(self) -> (r: AttachErrorS) { let e = self; assert(e == <AttachErrorS as ErrInto<AttachErrorS>>::conv(self)); e } }
 impl ErrInto<DetachError> for DetachError { open spec fn conv(self) -> DetachError { self } fn err_into(self) -> (r: DetachError) { let e = self; assert(e == <DetachError as ErrInto<DetachError>>::conv(self)); e } }
@@ -165,13 +179,15 @@ impl ErrInto<DetachError> for DetachError { open spec fn conv(self) -> DetachErr
         r is Ok ==> final(link_inner).incoming.got@.len() > old(link_inner).incoming.got@.len()
             && final(link_inner).incoming.got@.last() == LinkFrame::Detach(r->Ok_0),                                   // [C13.link.detach-returns-after-peer-answer] it returns Ok only with a detach actually received from the peer (other frames still in flight are skipped)
         r is Err ==> !(r->Err_0 is ClosedByRemote),
+        final(link_inner).stop == old(link_inner).stop,
+        r is Err ==> (match old(link_inner).stop.v { Some(reason) => r->Err_0 == DetachError::SessionStopped(reason), None => r->Err_0 is IllegalState }),       // [C14.link.closed-channel-reports-stop-reason] [C13.link.definite-failure-names-the-stop-reason] the wait for the peer's detach fails with the session's published stop reason
         r is Err ==> final(link_inner).incoming.closed_seen@,                                                          // [C13.link.frames-in-flight-do-not-fail-the-detach] the wait for the peer's detach fails only when the link's queue is closed (the session is gone): a transfer, flow or disposition still in flight in front of the peer's detach is skipped, it is not an error -- `close()` / `detach()` with a delivery in flight still complete the handshake and report the peer's answer
         r is Ok ==> final(link_inner).incoming.errs@ == old(link_inner).incoming.errs@ + (if r->Ok_0.error is Some { 1nat } else { 0nat }),   // the first detach that arrives is the one returned
 //@@ loop 0 optional
         invariant
             link_inner.sent == old(link_inner).sent, link_inner.link == old(link_inner).link, link_inner.failures == old(link_inner).failures, link_inner.has_handle == old(link_inner).has_handle,
             link_inner.incoming.got@.len() >= old(link_inner).incoming.got@.len(),
-            link_inner.incoming.errs@ == old(link_inner).incoming.errs@,
+            link_inner.incoming.errs@ == old(link_inner).incoming.errs@, link_inner.stop == old(link_inner).stop,
 //@@ end
 
 //@@ fn file=fe2o3-amqp/src/link/shared_inner.rs name=reattach_and_then_close
